@@ -287,14 +287,18 @@ def tailDb : Db Float where
 def tailFilter : U Float :=
   .cmp .eq (.setFnSub .count "groups.boss.boss" (.cmp .eq (.sym "label") (.str [120])) none none) (.int 1)
 
+/-- the string payloads of a key list (SVal over Float has no decidable equality) -/
+def strKeys {F : Type} (l : List (SVal F)) : List (Option Bytes) :=
+  l.map fun v => match v with | .str s => some s | _ => none
+
 /-- old code: the cursor of `groups.boss.boss` ranged over the groups (b1), the path leads to b3 -/
 example : (resolvePre0441eb9 tailDb.defs 0 ["groups", "boss", "boss"]).map
-    (fun r => (r.hasTail, cursorKeys tailDb r (some [97, 49]))) = some (true, [.str [98, 49]]) := by decide
-example : (specPath tailDb.defs 0 ["groups", "boss", "boss"]).map (fun p => pathElems tailDb p (some [97, 49])) =
-    some [.str [98, 51]] := by decide
+    (fun r => (r.hasTail, strKeys (cursorKeys tailDb r (some [97, 49])))) = some (true, [some [98, 49]]) := by decide
+example : (specPath tailDb.defs 0 ["groups", "boss", "boss"]).map (fun p => strKeys (pathElems tailDb p (some [97, 49]))) =
+    some [some [98, 51]] := by decide
 /-- current code -/
 example : (resolve tailDb.defs 0 ["groups", "boss", "boss"]).map
-    (fun r => (r.hasTail, cursorKeys tailDb r (some [97, 49]))) = some (false, [.str [98, 51]]) := by decide
+    (fun r => (r.hasTail, strKeys (cursorKeys tailDb r (some [97, 49])))) = some (false, [some [98, 51]]) := by decide
 example : query tailDb witFo 0 tailFilter = .ok [[97, 49]] := by decide
 example : specQuery tailDb witFo 0 tailFilter = [[97, 49]] := by decide
 
